@@ -218,6 +218,11 @@ class FaultyFile:
                 self._ctl.ctx.crash()
             if f['kind'] == 'short':
                 half = data[:max(0, len(data) // 2)]
+                import io
+                if isinstance(self._fh, io.RawIOBase):
+                    # an unbuffered (raw) handle does what write(2) does: it accepts part of the data and
+                    # *returns the short count*; a caller that ignores the count reports success
+                    return self._fh.write(half)
                 self._fh.write(half)
                 self._fh.flush()
                 raise make_oserror('ENOSPC', self._label + '.write (short)')
